@@ -1,7 +1,8 @@
-import Mutagen.Driver.Util
+import Mutagen.Driver.C24
 namespace Mutagen.Driver.C25
 
-/-- Model-side handler for one line of the C25 correspondence stream. -/
-def handle (_line : String) : String := "unimplemented"
+/-- C25 shares the multiplexer harness and model driver of C24 (same line
+protocol; the generator profile and the oracle differ, see harness/muxh). -/
+def handle (line : String) : String := Mutagen.Driver.C24.handle line
 
 end Mutagen.Driver.C25
